@@ -44,7 +44,7 @@ class C15(core.Check):
     crosscheck_every = {'quick': 200, 'thorough': 200}
     required_buckets = {b: 3 for b in ['var:hashseed', 'var:env', 'var:cwd', 'var:include-order', 'var:include-duplicate',
                                        'var:include-symlink', 'prog:generated-isa', 'prog:multi-file', 'prog:example',
-                                       'include-dirs>=3']}
+                                       'include-dirs>=3', 'ambiguous-include-name']}
 
     def __init__(self):
         self.orders = set()
@@ -128,13 +128,13 @@ class C15(core.Check):
             else:
                 c = None
                 for _ in range(6):
-                    c = self.multi_file(rng)
+                    c = self.multi_file(rng, force_ambiguous=(i < 12 and i % 4 == 1) or (i >= 12 and i % 8 == 1))
                     if c:
                         break
                 if c:
                     yield c
 
-    def multi_file(self, rng):
+    def multi_file(self, rng, force_ambiguous=False):
         g = None
         for _ in range(10):
             g = gen_prog.Structured(rng, 16, {'file_labels': False})
@@ -144,7 +144,7 @@ class C15(core.Check):
             g = None
         if g is None:
             return None
-        dirs = ['.', 'lib', 'lib2/deep', 'third'][:rng.choice([2, 3, 4])]
+        dirs = ['.', 'lib', 'lib2/deep', 'third'][:rng.choice([3, 4] if force_ambiguous else [2, 3, 4])]
         pool = [f'part{i}.asm' for i in range(1, 5)]
         files = {}
         tags = set()
@@ -162,6 +162,14 @@ class C15(core.Check):
         t = {'prog:multi-file'}
         if len([d for d in dirs if d != '.']) >= 3:
             t.add('include-dirs>=3')
+        incdirs = [d for d in dirs if d != '.']
+        if files and len(incdirs) >= 2 and (force_ambiguous or rng.random() < 0.35):
+            # the same include name, with different content, in a second search directory: whatever the assembler does
+            # with the ambiguity, it must do the same in every run
+            (d0, f0), ls0 = next(iter(files.items()))
+            other = [d for d in incdirs if d != d0][0]
+            fl[other + '/' + f0] = 'nop\n' + ''.join(l['text'] + '\n' for l in ls0)
+            t.add('ambiguous-include-name')
         spec = self.build_runs(fl, 'p.asm', fn, dirs, t)
         for r in spec['runs']:
             r['dirs'] = r.get('dirs', []) + [d for d in dirs if d != '.']
@@ -202,7 +210,8 @@ class C15(core.Check):
                                                                       'hashseed': hs}, buckets=[tag], nt=nt))
                 continue
             if b.get('exit') != 0:
-                vs.append(core.dont_care('baseline run failed (consistently)'))
+                # the same failure, with identical outputs, in every run is also deterministic behaviour
+                vs.append(core.held(buckets=[tag, 'consistent-failure']))
                 continue
             vs.append(core.held(buckets=[tag], nt=nt))
         return vs
